@@ -106,6 +106,14 @@ func normaliseHigherOrder(p *Prog) int {
 		has := false
 		for _, b := range f.Blocks {
 			for _, in := range b.Instrs {
+				// a lookup in a constant dispatch table (rewritten to the equivalent chain of comparisons)
+				if lk, isLk := in.(*ssa.Lookup); isLk && lk.CommaOk {
+					if ld, isLd := lk.X.(*ssa.UnOp); isLd {
+						if g, isG := ld.X.(*ssa.Global); isG && len(p.constFuncMap(g)) > 0 {
+							has = true
+						}
+					}
+				}
 				c, ok := in.(*ssa.Call)
 				if !ok {
 					continue
